@@ -170,8 +170,7 @@ Definition piA (g g' : G) : Prop :=
 Definition hA (h h' : H) : Prop :=
   (forall s, (slotv h' s = slotv h s /\ lastw h' s = lastw h s) \/ (exists w, lastw h' s = Some w /\ hlen h <= w)) /\
   (forall r, att h' r = att h r) /\
-  (forall r, linked h' r = linked h r) /\ freeh h' FHp = freeh h FHp /\
-  hlen h <= hlen h'.
+  (forall r, linked h' r = linked h r) /\ hlen h <= hlen h'.
 
 Lemma piA_refl g : piA g g.
 Proof. unfold piA. repeat split; auto. Qed.
@@ -227,7 +226,7 @@ Section Quiet.
 
   Lemma ahead_quiet g g' h h' p s : piA g g' -> hA h h' -> ahead c g h p s -> ahead c g' h' p s.
   Proof.
-    intros P Hh. pose proof P as (A1&A2&A3&A4&A5). pose proof Hh as (B1&B3&B4&B6&B7).
+    intros P Hh. pose proof P as (A1&A2&A3&A4&A5). pose proof Hh as (B1&B3&B4&B7).
     destruct p as [|o|n j|n o j|n]; cbn; auto.
     - intros (r & H1 & H2). exists r. split; [eapply srec_hA; eauto|eapply after_piA; eauto].
     - destruct (A4 n) as (E&_). rewrite E. intros [H|[H|H]]; [left; exact H| |].
@@ -242,7 +241,7 @@ Section Quiet.
 
   Lemma scan_ok_quiet g g' h h' ss : piA g g' -> hA h h' -> scan_ok c g h ss -> scan_ok c g' h' ss.
   Proof.
-    intros P Hh (S1 & S0 & S2 & S3). pose proof Hh as (B1&B3&B4&B6&B7). unfold scan_ok.
+    intros P Hh (S1 & S0 & S2 & S3). pose proof Hh as (B1&B3&B4&B7). unfold scan_ok.
     split; [lia|]. split.
     { pose proof P as (A1&_). destruct (ss_pos ss) as [|[n|]|n j|n o j|n]; cbn in *; auto; rewrite A1; eapply after_piA; eauto. }
     split.
@@ -253,9 +252,9 @@ Section Quiet.
   Qed.
 
   Lemma JA_quiet g g' a h h' : piA g g' -> hA h h' -> (forall t, scan h' t = scan h t) ->
-    (forall s, slot_get g' s = slotv h' s) -> JA c g a h -> JA c g' a h'.
+    freeh h' FHp = freeh h FHp -> (forall s, slot_get g' s = slotv h' s) -> JA c g a h -> JA c g' a h'.
   Proof.
-    intros P Hh B5 Hsl J. pose proof P as (A1&A2&A3&A4&A5). pose proof Hh as (B1&B3&B4&B6&B7).
+    intros P Hh B5 B6 Hsl J. pose proof P as (A1&A2&A3&A4&A5). pose proof Hh as (B1&B3&B4&B7).
     destruct J as [J1 J2 J3 J4 J5 J6 J7 J8 J9 J10 J11 J12 J15 J16 J17 J18 J13 J14]. constructor.
     - destruct J1 as (L & H1 & H2). exists L. rewrite A1. split; auto. eapply rchain_piA; eauto.
     - intros r t k Ha. rewrite B3 in Ha. destruct (J2 r t k Ha) as (X1&X2&X3&X4&X5&X6&X7&X8&X9).
